@@ -39,7 +39,7 @@ func (in *Inst) callInner(x *ssa.Call, st *State) {
 		args = append(args, in.val(a, st))
 	}
 	if c.IsInvoke() {
-		if con := e.W.ifaceContract(c); con != nil && (!e.abstract || con.AbstractToo || e.W.ghostRelevant(con)) {
+		if con := e.W.ifaceContract(c); con != nil && (!e.abstract || con.AbstractToo || e.W.ghostRelevantTo(con, e.top.con)) {
 			sig := c.Method.Type().(*types.Signature)
 			rs := in.applyContract(con, args, sig, c.Value.Type(), st, x.Pos(), x.Type())
 			in.setResult(x, rs)
@@ -84,7 +84,7 @@ func (in *Inst) callInner(x *ssa.Call, st *State) {
 			return
 		}
 	}
-	if con := e.W.contractFor(callee); con != nil && (!e.abstract || con.AbstractToo || e.W.ghostRelevant(con)) {
+	if con := e.W.contractFor(callee); con != nil && (!e.abstract || con.AbstractToo || e.W.ghostRelevantTo(con, e.top.con)) {
 		if con.Sig == nil {
 			con.Sig = callee.Signature
 		}
@@ -1207,7 +1207,7 @@ func (w *World) abstractRelevant(fn *ssa.Function, top *Contract, depth int, see
 				return true
 			}
 			if c.IsInvoke() {
-				if con := w.ifaceContract(c); con != nil && w.ghostRelevant(con) {
+				if con := w.ifaceContract(c); con != nil && w.ghostRelevantTo(con, top) {
 					return true
 				}
 				continue
@@ -1217,7 +1217,7 @@ func (w *World) abstractRelevant(fn *ssa.Function, top *Contract, depth int, see
 				continue
 			}
 			if con := w.contractFor(cal); con != nil {
-				if w.ghostRelevant(con) {
+				if w.ghostRelevantTo(con, top) {
 					return true
 				}
 				continue
@@ -1251,4 +1251,76 @@ func (in *Inst) bindCallArgs(env *SpecEnv, x *ssa.Call, st *State) {
 			env.vars[fmt.Sprintf("arg%d", i+k)] = v
 		}()
 	}
+}
+
+// ghostNamesOf: the ghost variables and ghost fields a contract mentions anywhere.
+func (w *World) ghostNamesOf(con *Contract) map[string]bool {
+	if con.ghostNames != nil {
+		return con.ghostNames
+	}
+	out := map[string]bool{}
+	var visit func(x ast.Expr)
+	visit = func(x ast.Expr) {
+		if x == nil {
+			return
+		}
+		ast.Inspect(x, func(n ast.Node) bool {
+			switch v := n.(type) {
+			case *ast.Ident:
+				if _, ok := w.ghosts[v.Name]; ok {
+					out[v.Name] = true
+				}
+				if m, ok := w.macros[v.Name]; ok {
+					visit(m.Body)
+				}
+			case *ast.SelectorExpr:
+				for k := range w.ghosts {
+					if strings.HasSuffix(k, "."+v.Sel.Name) && strings.Count(k, ".") == 2 {
+						out[k] = true
+					}
+				}
+			}
+			return true
+		})
+	}
+	for _, mi := range con.Modifies {
+		if mi.Kind == modGhost {
+			out[mi.Name] = true
+		}
+		visit(mi.Expr)
+	}
+	for _, c := range con.Requires {
+		visit(c.Expr)
+	}
+	for _, c := range con.Ensures {
+		visit(c.Expr)
+	}
+	for _, a := range con.Asserts {
+		visit(a.Clause.Expr)
+	}
+	for _, g := range con.Ghosts {
+		visit(g.Lhs)
+		visit(g.Expr)
+	}
+	for _, l := range con.Loops {
+		for _, iv := range l.Invariants {
+			visit(iv.Expr)
+		}
+	}
+	con.ghostNames = out
+	return out
+}
+
+// ghostRelevantTo: does the callee's contract speak about ghost state the top-level contract uses?
+func (w *World) ghostRelevantTo(con, top *Contract) bool {
+	if top == nil {
+		return w.ghostRelevant(con)
+	}
+	a, b := w.ghostNamesOf(con), w.ghostNamesOf(top)
+	for k := range a {
+		if b[k] {
+			return true
+		}
+	}
+	return false
 }
